@@ -70,13 +70,18 @@ def run_cvc5(smt2: str, timeout_ms: int):
 
 def discharge(job):
     """job = (name, smt2, timeout_ms).  Returns dict with verdict and back end."""
-    name, smt2, timeout_ms = job
+    name, smt2, timeout_ms = job[:3]
     if timeout_ms < 0:  # cover job: one quick z3 call, no fallback
         r, t, model, reason = run_z3(smt2, -timeout_ms)
         return dict(name=name, verdict=r, backend="z3", seconds=t, model=None, reason=reason)
+    t_first = 0.0
+    if len(job) > 3 and job[3] == "cvc5":  # contract option backend_first="cvc5": an `unsat` of cvc5 settles it, anything else goes the usual way
+        r0, t_first, _, _ = run_cvc5(smt2, 5000)
+        if r0 == "unsat":
+            return dict(name=name, verdict="unsat", backend="cvc5", seconds=t_first, model=None, reason="")
     r, t, model, reason = run_z3(smt2, timeout_ms)
     backend = "z3"
-    total = t
+    total = t + t_first
     if r == "unknown":
         for seed in (7, 31):  # nonlinear queries are sensitive to symbol names / seeds: a timeout is retried before cvc5 is asked
             r2, t2, model2, reason2 = run_z3(smt2, timeout_ms, seed)
